@@ -16,7 +16,8 @@ import desper
 from hypothesis import strategies as st
 
 from vlib.core import PropertyViolation, with_budget, StepBudgetExceeded, raised_in_repo
-from vlib.classes import build_dag, has_diamond, EV_ADD, EV_REMOVE, EV_RENAMED, EV_PROBE, EV_FALSY
+from vlib.classes import (build_dag, has_diamond, EV_ADD, EV_REMOVE, EV_RENAMED, EV_PROBE, EV_FALSY, EV_EQ,
+                          EV_UNHASH)
 
 EXPLICIT_IDS = [1, 2, 3, 4, 6, 'a', ('t', 1), -1, 0, True, 2.0, '', 9]
 NEVER_USED = ['never-used', 10 ** 9]
@@ -43,7 +44,9 @@ class Sentinel(desper.Processor):
 
 EV_SHAPES = [0, 0, EV_ADD | EV_REMOVE, EV_ADD, EV_REMOVE, EV_ADD | EV_REMOVE | EV_RENAMED, EV_PROBE,
              EV_ADD | EV_REMOVE | EV_PROBE, EV_ADD | EV_RENAMED, EV_REMOVE | EV_PROBE,
-             EV_FALSY, EV_FALSY | EV_ADD | EV_REMOVE | EV_PROBE]
+             EV_FALSY, EV_FALSY | EV_ADD | EV_REMOVE | EV_PROBE,
+             # value semantics: instances that are equal but distinct (hashable / unhashable)
+             EV_EQ, EV_EQ | EV_ADD | EV_REMOVE | EV_PROBE, EV_UNHASH | EV_ADD | EV_REMOVE]
 
 
 def decode_class(p):
@@ -652,7 +655,7 @@ class Run:
             if not hit:
                 self.viol('lifecycle_callbacks_differ_from_owed', where=opname, got=self.fmt(before),
                           owed=[(k2, repr(c), repr(e)) for (k2, c, e) in self._owed])
-            left.remove(hit[0])
+            left.pop(next(i for i, g in enumerate(left) if g is hit[0]))
             if len(a) != 2 or not (a[0] == hit[0][2]) or a[1] is not self.world:
                 self.viol('lifecycle_callback_arguments_wrong', where=opname, kind=k, receiver=repr(r), args=repr(a))
         if left:
